@@ -404,6 +404,51 @@ pub fn budget_error_field(e: &serde_saphyr::Error) -> Option<&'static str> {
     }
 }
 
+/// Error kind as the checks compare it. A limit error raised *while an alias is
+/// being replayed* reaches the caller as `Error::AliasError { msg, .. }` whose
+/// message is the rendering of the original error (`attach_alias_locations_if_missing`
+/// in de.rs); that form is recognised here and reported with `wrapped = true`.
+#[derive(Clone, Debug, PartialEq, Eq)]
+pub struct EffKind {
+    pub kind: String,
+    pub budget_field: Option<&'static str>,
+    pub wrapped: bool,
+}
+
+pub fn effective_kind(e: &serde_saphyr::Error) -> EffKind {
+    let kind = crate::errs::kind(e);
+    if let serde_saphyr::Error::AliasError { msg, .. } = e.without_snippet() {
+        if let Some(rest) = msg.strip_prefix("budget breached: ") {
+            let variant: String = rest.chars().take_while(|c| c.is_ascii_alphanumeric()).collect();
+            let field = match variant.as_str() {
+                "Events" => Some("events"),
+                "Aliases" => Some("aliases"),
+                "Anchors" => Some("anchors"),
+                "Depth" => Some("max_depth"),
+                "Documents" => Some("documents"),
+                "Nodes" => Some("nodes"),
+                "ScalarBytes" => Some("total_scalar_bytes"),
+                "MergeKeys" => Some("merge_keys"),
+                "AliasAnchorRatio" => Some("ratio"),
+                _ => None,
+            };
+            if field.is_some() {
+                return EffKind { kind: "Budget".into(), budget_field: field, wrapped: true };
+            }
+        }
+        for (prefix, k) in [
+            ("alias replay limit exceeded", "AliasReplayLimitExceeded"),
+            ("alias expansion limit exceeded", "AliasExpansionLimitExceeded"),
+            ("alias replay stack depth exceeded", "AliasReplayStackDepthExceeded"),
+        ] {
+            if msg.starts_with(prefix) {
+                return EffKind { kind: k.into(), budget_field: None, wrapped: true };
+            }
+        }
+    }
+    EffKind { kind, budget_field: budget_error_field(e), wrapped: false }
+}
+
 /// Options with the given budget, alias limits off, and a report catcher.
 pub fn options_with(budget: Budget) -> (serde_saphyr::Options, Rc<RefCell<Vec<BudgetReport>>>) {
     let got: Rc<RefCell<Vec<BudgetReport>>> = Rc::new(RefCell::new(Vec::new()));
